@@ -22,6 +22,7 @@ Outcome RunC18(RunCtx&);
 Outcome RunC19(RunCtx&);
 Outcome RunC20(RunCtx&);
 void WarmUp();
+extern bool g_coldRun;
 
 static const ScenarioDef kScenarios[] = {
 	{ "C01", RunC01 }, { "C02", RunC02 }, { "C03", RunC03 }, { "C05", RunC05 }, { "C10", RunC10 },
@@ -182,7 +183,7 @@ static int Execute(const char* prop, RunCtx& ctx)
 	sim::set_run_label(prop);
 	sim::set_stats_dump(DumpStats);
 	g_statsDumped = true;   // exec mode prints no STATS line
-	WarmUp();
+	if (!g_coldRun) WarmUp();
 	sim::ev_reset(ctx.describe);
 	g_currentSource = &ctx.src;
 	Outcome o = fn(ctx);
@@ -208,7 +209,21 @@ static int CmdExec(int argc, char** argv)
 	if (!ReadPlan(argv[3], lanes)) { fprintf(stderr, "cannot read plan %s\n", argv[3]); return 2; }
 	RunCtx ctx;
 	ctx.src.Replay(lanes);
-	ctx.describe = argc > 4 && strcmp(argv[4], "describe") == 0;
+	for (int i = 4; i < argc; ++i)
+	{
+		if (strcmp(argv[i], "describe") == 0) ctx.describe = true;
+		if (strcmp(argv[i], "cold") == 0) g_coldRun = true;
+	}
+	return Execute(argv[2], ctx);
+}
+
+// one seeded run in a process in which nothing of the library has been used yet (no warm-up)
+static int CmdCold(int argc, char** argv)
+{
+	if (argc < 5) { fprintf(stderr, "usage: cold PROP seed index\n"); return 2; }
+	RunCtx ctx;
+	ctx.src.Seed(RunSeed(argv[2], strtoull(argv[3], nullptr, 10), strtoull(argv[4], nullptr, 10)));
+	g_coldRun = true;
 	return Execute(argv[2], ctx);
 }
 
@@ -246,6 +261,7 @@ int main(int argc, char** argv)
 	if (strcmp(argv[1], "exec") == 0) return hz::CmdExec(argc, argv);
 	if (strcmp(argv[1], "describe") == 0) return hz::CmdDescribe(argc, argv);
 	if (strcmp(argv[1], "lanes") == 0) return hz::CmdLanes(argc, argv);
+	if (strcmp(argv[1], "cold") == 0) return hz::CmdCold(argc, argv);
 	fprintf(stderr, "unknown command\n");
 	return 2;
 }
